@@ -75,7 +75,18 @@ func (e *Exec) writeStructObj(st *State, ref string, t types.Type, v Val) {
 func (e *Exec) loadAddr(st *State, a *Addr) Val {
 	switch a.kind {
 	case aField:
-		return e.readAt(st, fieldArrName(a.T, a.path), a.ft, a.base)
+		v := e.readAt(st, fieldArrName(a.T, a.path), a.ft, a.base)
+		if v.K == KBytes && e.ownership() {
+			// identity of the buffer held in the field: the one stored earlier in this call,
+			// or a buffer that existed before the call (and may have been handed out)
+			key := fieldArrName(a.T, a.path) + "@" + a.base
+			if id, ok := st.fieldIdent[key]; ok {
+				v.Ident = id
+			} else {
+				v.Ident = "heap:" + key
+			}
+		}
+		return v
 	case aByte:
 		ch := e.S.Define("byte", "Int", sx("str.to_code", sx("str.at", a.base, a.idx)))
 		e.S.Assert(sx("<=", ch, "255"))
@@ -108,6 +119,9 @@ func (e *Exec) storeAddr(st *State, a *Addr, v Val) {
 	v = coerce(v, a.ft)
 	switch a.kind {
 	case aField:
+		if v.K == KBytes && e.ownership() {
+			st.fieldIdent[fieldArrName(a.T, a.path)+"@"+a.base] = v.Ident
+		}
 		e.writeAt(st, fieldArrName(a.T, a.path), a.ft, a.base, v)
 	case aElem:
 		n, srt := e.seqArr(a.ft)
